@@ -167,3 +167,57 @@ func VerifC09ResizeSeq() {
 		}
 	}
 }
+
+// c09WaitTask runs only after another task has run (it waits for it): with two workers both tasks complete, whatever the
+// order in which they were added - the second task must be started by the idle worker while the first one waits.
+type c09WaitTask struct {
+	other *c09SyncTask
+	gate  *sync.Mutex
+	runs  int
+}
+
+func (t *c09WaitTask) Run(tid uint64) error {
+	t.gate.Lock() // opened by the task it depends on
+	t.gate.Unlock()
+	t.runs++
+	return nil
+}
+func (t *c09WaitTask) HandleError(e error) {}
+
+type c09OpenTask struct {
+	gate *sync.Mutex
+	runs int
+}
+
+func (t *c09OpenTask) Run(tid uint64) error { t.runs++; t.gate.Unlock(); return nil }
+func (t *c09OpenTask) HandleError(e error)  {}
+
+// VerifC09Dependent: "every task added is eventually started by exactly one worker without any further call": N tasks that
+// each wait for a gate and one task that opens the gates, added in a symbolic order to a pool with N+1 workers: every task is
+// started (an idle worker exists for each), so all of them complete without WaitAll / JoinAll being called.
+func VerifC09Dependent() {
+	n := zz.Param("N", 1)
+	tp := NewThreadPool()
+	zz.Schedule(zz.Param("P", 1))
+	tp.SetWorkerCount(n+1, true)
+	gate := &sync.Mutex{}
+	gate.Lock()
+	waiters := make([]*c09WaitTask, n)
+	opener := &c09OpenTask{gate: gate}
+	at := zz.Choice("openerAddedAt", n+1)
+	for i := 0; i <= n; i++ {
+		if i == at {
+			tp.AddTask(opener)
+		}
+		if i < n {
+			waiters[i] = &c09WaitTask{gate: gate}
+			tp.AddTask(waiters[i])
+		}
+	}
+	zz.Quiesce()
+	zz.Reach("quiescent")
+	zz.Assert(opener.runs == 1, "C09.task-ran-exactly-once")
+	for _, w := range waiters {
+		zz.Assert(w.runs == 1, "C09.task-ran-exactly-once")
+	}
+}
